@@ -616,7 +616,13 @@ def gen_hist_cases(tier, rng) -> List[dict]:
                 if a[0] == "V":
                     bound.add(a[3])
             q["sel"] = sorted(bound)[:2]
-            q["rule"] = [gen_atom(rng, q["sel"])]
+            if len(bound) > 1 and rng.chance(0.4):
+                # conclusion over ONE variable, refinement over any bound variable: the same binding of the conclusion
+                # variable can meet both conclusions (coverage memory keyed by conclusion set, krrood 35fa150)
+                q["sel"] = [sorted(bound)[rng.randint(0, len(bound) - 1)]]
+                q["rule"] = [gen_atom(rng, sorted(bound))]
+            else:
+                q["rule"] = [gen_atom(rng, q["sel"])]
             q["form"] = "entity"
         evals = [rng.randint(0, len(queries) - 1) for _ in range(rng.randint(2, 4))]
         if rng.chance(0.5):
